@@ -415,7 +415,7 @@ def main(tier, seed):
                     shards.append({'part': 'threads', 'pair': [(i0, f0[ka]), (i1, f1[kb])], 'points': (n0, n1), 'lo': lo, 'hi': hi, 'bound': bound})
     S = scenarios()
     hfresh = fresh_outcomes(S)
-    depth = 5 if tier == 'thorough' else 3
+    depth = 4 if tier == 'thorough' else 3       # 25^4 = 390k forked nodes (depth 5 = 9.8M nodes was run once: silent, 80 minutes)
     pre = 2
     shards.append({'part': 'history', 'prefix': [], 'depth': 0, 'fresh': hfresh, 'judge_prefix': False})
     for a in range(len(S)):
